@@ -94,6 +94,16 @@ CHECKS.update({
    text='For every rule, 2 (quick) / 2..3 nodes with symbolic dates and values and a symbolic query date: every sequence of order switches (length <=2 / <=3) keeps every looked-up value; after raising float nodes the node at sorted position i carries exactly the tag <id>i with unit sensitivity (also through nodes_into_order on unsorted supply); the gradient and Hessian of a looked-up value, read by variable name, equal the first and second derivatives of the closed form w.r.t. the two active node values and are zero elsewhere; nodes that already are Dual/Dual2 (one shared user variable or separate ones, symbolic sensitivities) keep their names through 1<->2 switches and obey the chain rule; index value = base/value, 0 before the first node, Err without base.',
    note='Reals; uses the C01/C02 operator bodies (interpreted again).'),
 })
+CHECKS.update({
+ 'C14': dict(engine='mirsym', technique='symbolic execution of the MIR of bsplev_single_f64 / bspldnev_single_f64 (recursive) with a symbolic evaluation point on concrete knot families (plus symbolic knots a<b<c in thorough); z3 validity per path against exact reference polynomial pieces; native replay',
+   category='model_checking', design_ref='DESIGN.md §3.14',
+   text='For orders k = 1..4 (quick) / 1..5 and knot vectors with k-fold ends and none/one/two/non-uniform/repeated interior knots, with the evaluation point SYMBOLIC over the whole domain (every span, interior knot and both end points reached through the path forks): every basis function is non-negative, vanishes outside its k spans, all sum to one, and the value returned for derivative order m = 0..k equals the m-th derivative of the Cox-de Boor polynomial of the active span (right-hand span; left-hand one at the right end point), zero for m >= k. Reference pieces are computed independently in exact rational arithmetic.',
+   note='Reals. Knot values are concrete families (symbolic x); fully symbolic knot vectors and k=6 are outside.'),
+ 'C15': dict(engine='mirsym', technique='symbolic execution of the MIR of PPSpline::new/csolve/bsplmatrix/ppdnev_single(_dual/_dual2)/mapped_value (with the fdsolve and B-spline bodies underneath) on concrete layouts with symbolic data, polynomial coefficients and evaluation point; z3 validity per path; native replay',
+   category='model_checking', design_ref='DESIGN.md §3.15',
+   text='On each layout (k=2..4, 3-6 sites, uneven sites, natural-spline layout with repeated end sites and second-derivative end conditions; more in thorough): the solved spline meets every datum (value at interior sites, requested derivative at the end sites) for symbolic data; for data taken from a polynomial of degree < k with symbolic coefficients the spline and ALL its derivatives equal the polynomial at a symbolic x; with Dual/Dual2 data the sensitivity to datum j equals the spline of unit data e_j and there is no second-order term; a Dual/Dual2 abscissa returns s, s\'(x)g, s\'\'(x)g^2 + 2 s\'(x)h; the 3x3 spline-type x abscissa-type table incl. the two refusing pairs; site-count mismatches and evaluation before solving give Err (no abort).',
+   note='Concrete knots/sites (symbolic ones are outside); reals.'),
+})
 NA_REASON = 'no registered check in this revision yet (work in progress; planned solver-based check described in DESIGN.md §3) — not claimed'
 
 checks = []
@@ -122,7 +132,7 @@ m = {
            'add_only': True},
  'engines': [
    {'name': 'kani', 'path': '/verif/kani', 'serves_properties': ['C08', 'C11', 'C20', 'C04'], 'kind_free_text': 'Kani 0.68 / CBMC 6.11 proof harnesses over the compiled crate (path dependency on /repo), native replay binary in the same crate'},
-   {'name': 'mirsym', 'path': '/verif/mirsym', 'serves_properties': ['C01','C02','C03','C04','C05','C06','C09','C10','C11','C12','C13','C17','C18','C19','C20'], 'kind_free_text': 'symbolic executor for rustc MIR (regenerated from /repo on every run) discharging path obligations with z3'},
+   {'name': 'mirsym', 'path': '/verif/mirsym', 'serves_properties': ['C01','C02','C03','C04','C05','C06','C09','C10','C11','C12','C13','C14','C15','C17','C18','C19','C20'], 'kind_free_text': 'symbolic executor for rustc MIR (regenerated from /repo on every run) discharging path obligations with z3'},
    {'name': 'tables', 'path': '/verif/tables', 'serves_properties': ['C07'], 'kind_free_text': 'SMT encoding of the static holiday tables against the published rules over a symbolic day'},
  ],
  'checks': checks,
